@@ -8,6 +8,10 @@ byte for byte:
   U  `Message.decode` + `CanUnprotect.unprotect` vs Lean `unprotect`
      (authentic messages, every kind of manipulated message, foreign request identifiers,
      other contexts' keys)
+  S  several requests in a row through `unprotect` on ONE recipient context (replay window and
+     echo_recovery included) vs Lean `sessionRun`: manipulated copies / forgeries naming the same
+     key ID and Partial IV first, then the genuine request, then its replay; and the Echo
+     recovery exchange of a recipient whose window is uninitialised (state lost)
   Z  `_uncompress` / `_compress`, N `_construct_nonce`, A external AAD + Encrypt0 structure
      on boundary tables and random (also malformed) values.
 Oracle (independent reading of the property over what the implementation did; own RFC 8613
@@ -19,7 +23,11 @@ Oracle (independent reading of the property over what the implementation did; ow
   manipulation that changes a value (ciphertext, Partial IV, KID, KID context, key, request
   identifiers) raises a ProtectionInvalid (sub)class — never another exception, never a message;
   a manipulation that only changes representation may be accepted but then yields the
-  original message.
+  original message; on one context, after any rejected copies the genuine request still yields
+  the original; over a whole exchange INCLUDING the server's life before a crash (request answered,
+  state lost, the same request replayed, Echo challenge, Echo completion, response) no (key, nonce)
+  pair is handed to the AEAD for two encryptions (the transparent AEAD records them) - with a
+  stream cipher two plaintexts under one pair reveal their XOR, i.e. inner data.
 """
 from common import compare, load_corpus, HarnessError
 import c11_util
@@ -35,7 +43,14 @@ RULE = ("Scenarios = (algorithm/nonce length, client and server sender-ID length
         "a sample), field-level rewrites of the option (PIV value/length, KID, KID context, "
         "flags, truncations, reserved values), truncated/extended ciphertext, other contexts' "
         "keys, responses paired with foreign request identifiers, and representation-only "
-        "changes. Boundary table enumerated in full; random part from env.rng. A case is "
+        "changes. Every scenario is also run as a session: a recipient context that keeps its replay "
+        "window sees 1-4 rejected copies of the request (bit flip in ciphertext / tag, truncation, "
+        "extension, same key ID and Partial IV under another context's keys, rewritten Partial IV) "
+        "BEFORE the genuine request, then the genuine one and its replay; and as a crash history: "
+        "request accepted and answered (nonce re-used), recipient state lost (window uninitialised, "
+        "Echo recovery), the same request replayed -> 4.01 + Echo challenge -> request with the "
+        "Echo value -> response, with every (key, nonce) pair handed to the AEAD collected over the "
+        "whole history. Boundary table enumerated in full; random part from env.rng. A case is "
         "non-trivial when the message has inner options or payload and the step's outcome is "
         "determined by the property (accepted round trip / rejected manipulation).")
 TRUSTED = ["system libcrypto (AES-CCM through ctypes) for the RFC 8613 appendix C replay only",
@@ -48,7 +63,9 @@ ASSUMPTIONS = ["AEAD: decryption inverts encryption; what decrypts under (key, n
                "key derivation (HKDF) yields different keys for different contexts (checked on the "
                "generated contexts, not modelled)",
                "Group OSCORE, deterministic requests, appendix B.2, Proxy-Uri splitting are out of model",
-               "replay window / Echo recovery are C12's subject; recipient windows are fresh"]
+               "replay protection as such (at most once, window sizes, persistence) is C12's / C13's subject; "
+               "here the window only matters for 'a rejected message consumes nothing' and for which "
+               "request nonces may be re-used; single-message cases use fresh recipient windows"]
 
 ALGS = [(10, 13), (10, 13), (10, 13), (24, 12), (1, 12), (12, 7)]
 SEQS = [0, 1, 255, 256, 65535, 65536, (1 << 24) - 1, 1 << 24, (1 << 32) - 1, 1 << 32,
@@ -337,6 +354,33 @@ def do_unprotect(k, ctx, rid, wire):
     return canon_unprotected(msg, rid_out), line, msg, rid_out
 
 
+def session_unprotect(k, ctx, wire):
+    """one request through the real unprotect of a context that KEEPS its replay window;
+    returns (canonical output, msg | None, rid | None, exception | None)"""
+    inc = k.aiocoap.Message.decode(wire)
+    try:
+        msg, rid_out = ctx.unprotect(inc, None)
+    except k.oscore.ReplayErrorWithEcho as e:
+        return "err:ReplayErrorWithEcho " + rid_token(e.request_id), None, None, e
+    except Exception as e:
+        return err_name(e), None, None, e
+    return canon_unprotected(msg, rid_out), msg, rid_out, None
+
+
+def window_token(ctx):
+    w = ctx.recipient_replay_window
+    if not w.is_initialized():
+        return "u"
+    p = w.persist()
+    return f"i:{p['index']}:{p['bitfield']}"
+
+
+def session_line(k, ctx, win, wires):
+    echo = "~" if ctx.echo_recovery is None else hx(ctx.echo_recovery)
+    msgs = " ".join(msg_tokens(k.aiocoap.Message.decode(w)) for w in wires)
+    return f"C11 S {ctx_token(ctx)} 32 {win} {echo} {msgs}"
+
+
 def rewire(k, wire, oscore_value=None, payload=None, code=None, extra_opts=None):
     """rebuild a datagram with a replaced OSCORE option value / payload / code"""
     inc = k.aiocoap.Message.decode(wire)
@@ -481,6 +525,16 @@ class Sink:
             if tag:
                 self.rep.count(tag)
             self.rep.count("outcome=" + ("ok" if out.startswith("ok") else out))
+            if verdict:
+                self.rep.oracle_fail(case, verdict, key=key)
+        self.last_verdict = verdict
+
+    def oracle_only(self, case, verdict, key, tag=None):
+        """a judgement over a whole history (no model line of its own)"""
+        if self.rep is not None:
+            self.rep.case(case, nontrivial=True, sample_every=4000)
+            if tag:
+                self.rep.count(tag)
             if verdict:
                 self.rep.oracle_fail(case, verdict, key=key)
         self.last_verdict = verdict
@@ -775,6 +829,232 @@ def run_scenario(k, scn, sink, rng, manip=True, only_manip=None):
                                expect_ctx, expect_kid, rng):
             apply_manip(k, scn, art, m, sink, base)
     return verdicts, art
+
+
+# --------------------------------------------------------------------------- sessions on one context
+
+MAXSEQ = (1 << 40) - 1
+
+
+def forged_copies(k, scn, wire, rng):
+    """rejected variants of the genuine request `wire` that name the same key ID and (all but the last) the same
+    Partial IV: (label, datagram)"""
+    code, opts, payload, _ = rfc_parse_datagram(wire)
+    opt_value = [v for n, v in opts if n == 9][0]
+    out = [("ciphertext-bit", rewire(k, wire, payload=flip(payload, rng.randrange(8 * len(payload))))),
+           ("last-byte-bit", rewire(k, wire, payload=flip(payload, 8 * len(payload) - 1 - rng.randrange(8)))),
+           ("truncated", rewire(k, wire, payload=payload[:max(1, len(payload) - 1 - rng.randrange(4))])),
+           ("extended", rewire(k, wire, payload=payload + b"\0"))]
+    other = make_ctx(k, scn, "c", alter="secret")
+    wire2 = do_protect(k, other, scn["cseq"], build_message(k, scn["req"]), None, scn)[4]
+    if wire2 is not None:
+        out.append(("other-keys-same-kid-and-piv", wire2))
+    p = rfc_parse_option(opt_value)
+    v = int.from_bytes(p["piv"], "big")
+    nv = v + 1 if v + 1 <= MAXSEQ else v - 1
+    out.append(("piv-value", rewire(k, wire, oscore_value=rfc_build_option(
+        piv=minbe(nv) or b"\0", kid=p["kid"], ctx=p["ctx"]))))
+    return out
+
+
+def play_session(k, scn, sess, sink):
+    """C11, round trip after tampering: the messages of `sess` (rejected copies first, the genuine request at index
+    `genuine`, its replay afterwards) through unprotect of ONE server context that keeps its replay window"""
+    S = make_ctx(k, scn, "s")
+    if sess["win"] != "i:0:0":
+        _, i, b = sess["win"].split(":")
+        S.recipient_replay_window.initialize_from_persisted({"index": int(i), "bitfield": int(b)})
+    wires = [unhx(w) for w in sess["wires"]]
+    outs, msgs = [], []
+    for w in wires:
+        o, m, _, _ = session_unprotect(k, S, w)
+        outs.append(o)
+        msgs.append(m)
+    g = sess["genuine"]
+    verdict = ""
+    for i, (o, lab) in enumerate(zip(outs, sess["labels"])):
+        if i < g:
+            verdict = verdict or judge(o, lab, None, f"session copy {i} ({lab})")
+        elif i == g:
+            if msgs[i] is None:
+                verdict = verdict or (f"the genuine request was refused ({o}) after the manipulated copies "
+                                      f"{sess['labels'][:g]} had been rejected on the same context: rejecting a message "
+                                      f"consumed its sequence number")
+            else:
+                verdict = verdict or oracle_roundtrip(msgs[i], scn["req"], True, what="request after rejected copies")
+        elif lab == "replay" and o.startswith("ok"):
+            verdict = verdict or "the replayed request was accepted a second time"
+    case = {"scn": scn, "session": sess}
+    sink.add(case, session_line(k, S, sess["win"], wires), " ; ".join(outs) + " | " + window_token(S), verdict,
+             "session:" + (verdict.split(" (")[0][:60] if verdict else ""), nontrivial=True, tag="step:session-forgeries")
+    return verdict
+
+
+def make_session(k, scn, art, rng):
+    wire = art["req_wire"]
+    forged = forged_copies(k, scn, wire, rng)
+    rng.shuffle(forged)
+    chosen = forged[:rng.randint(1, 4)]
+    start = scn["cseq"]
+    if rng.random() < 0.5:
+        win = "i:0:0"
+    else:
+        idx = max(0, start - rng.randrange(0, 20))
+        bits = rng.getrandbits(32) & ~(1 << (start - idx)) & ~(1 << min(31, start + 1 - idx))
+        win = f"i:{idx}:{bits}"
+    labels = [lab for lab, _ in chosen] + ["genuine", "replay"]
+    wires = [w for _, w in chosen] + [wire, wire]
+    if rng.random() < 0.3:
+        labels.append(forged[-1][0])
+        wires.append(forged[-1][1])
+    return {"win": win, "wires": [hx(w) for w in wires], "labels": labels, "genuine": len(chosen)}
+
+
+def play_crash(k, scn, cr, sink):
+    """C11, inner data hidden over a history with a crash: request accepted and answered, server state lost, the
+    same request replayed -> Echo challenge -> request with the Echo value -> response.  Every (key, nonce) pair
+    handed to the AEAD by the client, the server before and the server after the crash is collected."""
+    verdicts = []
+    if scn["cseq"] + 2 >= MAXSEQ or scn["sseq"] + 12 >= MAXSEQ:
+        return verdicts
+    oscore, Message = k.oscore, k.aiocoap.Message
+    base = {"scn": scn, "crash": cr}
+    e1, e2 = unhx(cr["echo1"]), unhx(cr["echo2"])
+    C = make_ctx(k, scn, "c")
+    out, line, outer, rid_c, wire = do_protect(k, C, scn["cseq"], build_message(k, scn["req"]), None, scn)
+    if outer is None:
+        return verdicts
+    rid_c = copy_rid(k, rid_c)
+
+    def note(step, line, out, v, key, tag):
+        sink.add(dict(base, step=step), line, out, v, key, nontrivial=True, tag=tag)
+        verdicts.append(v)
+
+    # --- the server's first life: the request is accepted and answered (the response re-uses the request's nonce)
+    S1 = make_ctx(k, scn, "s")
+    S1.echo_recovery = e1
+    o1, m1, rid1, _ = session_unprotect(k, S1, wire)
+    note("crash:first-life-request", session_line(k, S1, "i:0:0", [wire]), o1 + " | " + window_token(S1),
+         oracle_roundtrip(m1, scn["req"], True, what="request"), "roundtrip:request", "step:crash-first-life")
+    if m1 is None:
+        return verdicts
+    rspec = scn["resps"][0]["msg"] if scn["resps"] else {"code": 69, "opts": [], "payload": hx(b"Mhelloo1")}
+    out, line, outer_r, _, wire_r = do_protect(k, S1, scn["sseq"], build_message(k, rspec), rid1, scn, mid_off=1)
+    note("crash:first-life-response", line, out, oracle_outer(wire_r, rspec) if outer_r is not None else "",
+         "hiding:response", "step:crash-first-life")
+    # --- the state is lost: same keys, sender numbers persisted ahead, replay window unknown, new Echo value
+    S2 = make_ctx(k, scn, "s")
+    S2.echo_recovery = e2
+    S2.recipient_replay_window = oscore.ReplayWindow(32, lambda: None)
+    S2.sender_sequence_number = scn["sseq"] + 10
+    wires2, outs2 = [], []
+    if cr.get("forged_first"):
+        code, opts, payload, _ = rfc_parse_datagram(wire)
+        bad = rewire(k, wire, payload=flip(payload, 8 * len(payload) - 1))
+        wires2.append(bad)
+        outs2.append(session_unprotect(k, S2, bad)[0])
+    o2, m2, _, exc = session_unprotect(k, S2, wire)          # the request recorded before the crash, replayed
+    wires2.append(wire)
+    outs2.append(o2)
+    v2 = "the request replayed after the recipient state was lost was accepted without an Echo exchange" \
+        if m2 is not None else ""
+    m3 = rid3 = rid_c2 = None
+    if isinstance(exc, oscore.ReplayErrorWithEcho):
+        rid_e = exc.request_id
+        seq_before = S2.sender_sequence_number
+        inner = Message(code=k.aiocoap.UNAUTHORIZED, echo=exc.echo)
+        cspec = {"code": int(k.aiocoap.UNAUTHORIZED), "opts": [[252, hx(exc.echo)]], "payload": "-"}
+        line = (f"C11 P {ctx_token(S2)} {seq_before} {rid_token(rid_e)} {scn['mtype']} "
+                f"{(scn['mid'] + 2) % 65536} {scn['token']} {msg_tokens(inner)}")
+        wire_c = None
+        try:
+            chal = exc.to_message()                           # the 4.01 + Echo the server sends
+        except Exception as e:
+            out = err_name(e)
+        else:
+            chal.mid, chal.mtype, chal.token = (scn["mid"] + 2) % 65536, k.aiocoap.Type(scn["mtype"]), unhx(scn["token"])
+            wire_c = chal.encode()
+            out = f"ok {wire_c.hex()} {rid_token(rid_e)} {S2.sender_sequence_number}"
+        note("crash:echo-challenge", line, out, oracle_outer(wire_c, cspec) if wire_c else
+             "the Echo challenge could not be protected", "hiding:challenge", "step:crash-challenge")
+        if wire_c is not None:
+            outU, lineU, msg_c, _ = do_unprotect(k, C, copy_rid(k, rid_c), wire_c)
+            note("crash:challenge-at-client", lineU, outU, oracle_roundtrip(msg_c, cspec, False, what="Echo challenge"),
+                 "roundtrip:challenge", "step:crash-challenge")
+            # the client repeats the request with the Echo value under its next sequence number
+            req2 = dict(scn["req"])
+            req2["opts"] = sorted([o for o in scn["req"]["opts"] if o[0] != 252] + [[252, hx(e2)]], key=lambda o: o[0])
+            out, line, outer2, rid_c2, wire2 = do_protect(k, C, scn["cseq"] + 1, build_message(k, req2), None, scn,
+                                                          mid_off=3)
+            note("crash:request-with-echo", line, out, oracle_outer(wire2, req2) if outer2 is not None else "",
+                 "hiding:request", "step:crash-echo-request")
+            if outer2 is not None:
+                o3, m3, rid3, _ = session_unprotect(k, S2, wire2)
+                wires2.append(wire2)
+                outs2.append(o3)
+                v2 = v2 or oracle_roundtrip(m3, req2, True, what="request carrying the Echo value")
+                o4, m4, _, _ = session_unprotect(k, S2, wire)      # the old request once more: refused for good
+                wires2.append(wire)
+                outs2.append(o4)
+                if m4 is not None:
+                    v2 = v2 or "the old request was accepted after the Echo exchange had completed with a newer one"
+    note("crash:second-life-requests", session_line(k, S2, "u", wires2),
+         " ; ".join(outs2) + " | " + window_token(S2), v2, "session:crash:" + v2[:50], "step:crash-second-life")
+    if m3 is not None:
+        out, line, outer_r2, _, wire_r2 = do_protect(k, S2, S2.sender_sequence_number, build_message(k, rspec), rid3,
+                                                     scn, mid_off=4)
+        note("crash:second-life-response", line, out, oracle_outer(wire_r2, rspec) if outer_r2 is not None else "",
+             "hiding:response", "step:crash-second-life")
+        if outer_r2 is not None:
+            own_piv = rfc_parse_option([vv for n, vv in rfc_parse_datagram(wire_r2)[1] if n == 9][0])["piv"]
+            outU, lineU, msg_r, _ = do_unprotect(k, C, copy_rid(k, rid_c2), wire_r2)
+            note("crash:second-life-response-at-client", lineU, outU,
+                 oracle_roundtrip(msg_r, rspec, False, None, None if own_piv is None else int.from_bytes(own_piv, "big"),
+                                  what="response after Echo recovery"), "roundtrip:response", "step:crash-second-life")
+    # --- every (key, nonce) pair handed to an AEAD encryption over the whole history
+    seen, v = {}, ""
+    for who, ctx in (("client", C), ("server before the crash", S1), ("server after the crash", S2)):
+        for e in ctx.alg_aead.log:
+            if e[0] != "enc":
+                continue
+            pt, key, nonce = e[1], e[3], e[4]
+            if (key, nonce) in seen and not v:
+                who0, pt0 = seen[(key, nonce)]
+                v = (f"inner data exposed: the {who} encrypted a message starting {pt[:3].hex()} under a (key, nonce) "
+                     f"pair (nonce {nonce.hex()}) that the {who0} had already used for a message starting "
+                     f"{pt0[:3].hex()}; with a stream cipher the two outer payloads reveal the XOR of the inner messages")
+            seen.setdefault((key, nonce), (who, pt))
+    sink.oracle_only(dict(base, step="crash:nonce-monitor"), v, "hiding:nonce-reuse", tag="step:crash-nonce-monitor")
+    verdicts.append(v)
+    return verdicts
+
+
+def peer_last_number(k, gen, sink):
+    """the receiving direction at the very last Partial IV: a peer may send 2^40-1 (ff ff ff ff ff), which aiocoap's
+    own sender refuses to issue (it stops one short); the recipient must round-trip it like any other"""
+    for lc, ls in ((1, 1), (0, 2), (7, 3)):
+        scn = gen.scenario(alg=(10, 13), lc=lc, ls=ls, cseq=MAXSEQ, sseq=1, nresp=0, flips="none")
+        peer_last_number_one(k, scn, sink)
+
+
+def peer_last_number_one(k, scn, sink):
+    class PeerCtx(k.Ctx):
+        def new_sequence_number(self):
+            n = self.sender_sequence_number
+            self.sender_sequence_number += 1
+            return n
+
+    if True:
+        idctx = None if scn["idctx"] is None else unhx(scn["idctx"])
+        C = PeerCtx(k.Aead(10, 13), unhx(scn["cid"]), unhx(scn["sid"]), idctx, unhx(scn["secret"]), unhx(scn["salt"]))
+        C.sender_sequence_number = MAXSEQ
+        outer, _ = C.protect(build_message(k, scn["req"]), None)
+        outer.mid, outer.mtype, outer.token = scn["mid"], k.aiocoap.Type(scn["mtype"]), unhx(scn["token"])
+        wire = outer.encode()
+        out, line, msg, _ = do_unprotect(k, make_ctx(k, scn, "s"), None, wire)
+        sink.add({"scn": scn, "step": "peer-last-number"}, line, out,
+                 oracle_roundtrip(msg, scn["req"], True, what="request with Partial IV 2^40-1"),
+                 "roundtrip:request:last-number", nontrivial=True, tag="step:peer-last-number")
 
 
 def make_twin(gen, scn):
@@ -1105,7 +1385,13 @@ def run(env, rep):
     scns = []
     sink = Sink(rep)
     for fn, c in load_corpus("C11"):
-        if "scn" in c and "manip" in c:
+        if "scn" in c and "session" in c:
+            play_session(k, c["scn"], c["session"], sink)
+            rep.count("corpus")
+        elif "scn" in c and "crash" in c:
+            play_crash(k, c["scn"], c["crash"], sink)
+            rep.count("corpus")
+        elif "scn" in c and "manip" in c:
             # a recorded manipulation: base exchange without the generated manipulations, then it
             _, art = run_scenario(k, c["scn"], sink, rng, manip=False)
             m = c["manip"]
@@ -1137,12 +1423,19 @@ def run(env, rep):
         rep.count("idlen=%d/%d" % (len(unhx(scn["cid"])), len(unhx(scn["sid"]))))
         rep.count("idctx=" + ("none" if scn["idctx"] is None else str(len(unhx(scn["idctx"])))))
         rep.count("pivlen-c=%d" % max(1, (scn["cseq"].bit_length() + 7) // 8))
-        run_scenario(k, scn, sink, rng)
+        _, art = run_scenario(k, scn, sink, rng)
+        if art.get("req_u_out", "").startswith("ok"):
+            play_session(k, scn, make_session(k, scn, art, rng), sink)
+            play_crash(k, scn, {"echo1": hx(bytes(rng.randrange(256) for _ in range(8))),
+                                "echo2": hx(bytes(rng.randrange(256) for _ in range(8))),
+                                "forged_first": rng.random() < 0.3}, sink)
         if len(sink.lines) >= 20000:
             compare(env, rep, sink.cases, sink.lines, sink.impl, what="protect/unprotect")
             sink.cases, sink.lines, sink.impl = [], [], []
+    peer_last_number(k, gen, sink)
     compare(env, rep, sink.cases, sink.lines, sink.impl, what="protect/unprotect")
-    for need in ("step:unprotect-request", "step:unprotect-response", "manip:optbit:must-fail",
+    for need in ("step:unprotect-request", "step:unprotect-response", "step:session-forgeries",
+                 "step:crash-challenge", "step:crash-second-life", "manip:optbit:must-fail",
                  "manip:paybit:must-fail", "manip:rid:must-fail", "manip:key:must-fail",
                  "manip:optset:representation"):
         if not rep.hist.get(need):
@@ -1178,6 +1471,16 @@ def replay(env, case):
         return ""
     scn = case["scn"]
     sink = Sink(None)
+    if "session" in case:
+        return play_session(k, scn, case["session"], sink)
+    if case.get("step") == "peer-last-number":
+        peer_last_number_one(k, scn, sink)
+        return sink.last_verdict
+    if "crash" in case:
+        for v in play_crash(k, scn, case["crash"], sink):
+            if v:
+                return v
+        return ""
     verdicts, art = run_scenario(k, scn, sink, random.Random(0), manip=False)
     if "manip" in case:
         m = case["manip"]
